@@ -103,12 +103,27 @@ Proof.
   exact (wok_nocgj _ (tok_words _ Htbl _ (word_at_in tbl Htbl i Hi))).
 Qed.
 
+(* what the library returned for an accepted string is a sentence of table words: valid UTF-8 *)
+Lemma accepted_lib_valid s : CheckMnemonic lib (tbl_get tbl) s = Ret None -> utf8_valid (lib s) = true.
+Proof.
+  intros H. destruct (accepted_tokens s H) as [idx [Ht [_ [Hb _]]]].
+  rewrite <- (join_split (lib s)), Ht.
+  exact (valid_join [x20] 0x20 _ is_sep_space (words_of_indices_ok tbl Htbl idx Hb)).
+Qed.
+
 Hypothesis Hlib : lib_contract lib.
+
+(* ... so the accepted string itself was valid UTF-8 (LC4: invalid input never becomes valid output) *)
+Lemma accepted_valid s : CheckMnemonic lib (tbl_get tbl) s = Ret None -> utf8_valid s = true.
+Proof.
+  intros H. destruct (utf8_valid s) eqn:V; [reflexivity|].
+  pose proof (accepted_lib_valid s H) as K. rewrite (LC4 _ Hlib s V) in K. discriminate.
+Qed.
 
 Lemma accepted_xsafe s : CheckMnemonic lib (tbl_get tbl) s = Ret None -> xsafe s = true.
 Proof.
   intros H. destruct (xsafe s) eqn:X; [reflexivity|].
-  pose proof (accepted_no_cgj s H) as K. rewrite (LC2 _ Hlib s X) in K. discriminate.
+  pose proof (accepted_no_cgj s H) as K. rewrite (LC2 _ Hlib s (accepted_valid s H) X) in K. discriminate.
 Qed.
 
 (* C03: acceptance implies a well-formed, correctly checksummed sentence of table words *)
@@ -116,7 +131,7 @@ Theorem accepted_sound s : CheckMnemonic lib (tbl_get tbl) s = Ret None ->
   valid_sentence_with sha256 tbl (ws_tokens (nfkd s)).
 Proof.
   intros H. destruct (accepted_tokens s H) as [idx [Ht [Hwc [Hb Hcs]]]].
-  rewrite (LC1 _ Hlib s (accepted_xsafe s H)) in Ht.
+  rewrite (LC1 _ Hlib s (accepted_valid s H) (accepted_xsafe s H)) in Ht.
   exists idx. split; [|split; [exact Hwc|split; [exact Hb|]]].
   - rewrite <- (join_split (nfkd s)), Ht.
     apply (ws_tokens_join [x20] 0x20); [apply is_sep_space|reflexivity| |apply (words_of_indices_ok tbl Htbl); exact Hb].
@@ -125,22 +140,22 @@ Proof.
 Qed.
 
 (* C10: equal NFKD forms give the same answer (the same error class even) *)
-Theorem same_nfkd_same_result s1 s2 : nfkd s1 = nfkd s2 ->
+Theorem same_nfkd_same_result s1 s2 : utf8_valid s1 = true -> utf8_valid s2 = true -> nfkd s1 = nfkd s2 ->
   (CheckMnemonic lib (tbl_get tbl) s1 = Ret None <-> CheckMnemonic lib (tbl_get tbl) s2 = Ret None).
 Proof.
-  intros E. assert (X : xsafe s1 = xsafe s2) by (unfold xsafe; rewrite E; reflexivity).
+  intros V1 V2 E. assert (X : xsafe s1 = xsafe s2) by (unfold xsafe; rewrite E; reflexivity).
   destruct (xsafe s1) eqn:X1.
-  - assert (L : lib s1 = lib s2) by (rewrite (LC1 _ Hlib s1 X1), (LC1 _ Hlib s2 (eq_sym X)); exact E).
+  - assert (L : lib s1 = lib s2) by (rewrite (LC1 _ Hlib s1 V1 X1), (LC1 _ Hlib s2 V2 (eq_sym X)); exact E).
     rewrite !(CheckMnemonic_spec lib (tbl_get tbl) (tbl_get_bound tbl Htbl)), L. reflexivity.
   - split; intros H; apply accepted_xsafe in H; congruence.
 Qed.
 
-Theorem same_nfkd_same_class s1 s2 : nfkd s1 = nfkd s2 -> xsafe s1 = true ->
+Theorem same_nfkd_same_class s1 s2 : utf8_valid s1 = true -> utf8_valid s2 = true -> nfkd s1 = nfkd s2 -> xsafe s1 = true ->
   CheckMnemonic lib (tbl_get tbl) s1 = CheckMnemonic lib (tbl_get tbl) s2.
 Proof.
-  intros E X1. assert (X : xsafe s2 = true) by (unfold xsafe in *; rewrite <- E; exact X1).
+  intros V1 V2 E X1. assert (X : xsafe s2 = true) by (unfold xsafe in *; rewrite <- E; exact X1).
   rewrite !(CheckMnemonic_spec lib (tbl_get tbl) (tbl_get_bound tbl Htbl)).
-  rewrite (LC1 _ Hlib s1 X1), (LC1 _ Hlib s2 X), E. reflexivity.
+  rewrite (LC1 _ Hlib s1 V1 X1), (LC1 _ Hlib s2 V2 X), E. reflexivity.
 Qed.
 End Table.
 
